@@ -14,6 +14,7 @@ hold a job "running" until the harness releases it -- which scripts actually
 executed.  A 40-line model of the routing table and manifest semantics says
 what each request may do.
 """
+import copy
 import html
 import json
 import os
@@ -188,12 +189,18 @@ def gen_manifest(rng):
         fname = base + rng.choice(['.ls', '.ls', '.ls', '', '.txt'])
         if rng.random() < 0.06:
             fname = 'sub/' + fname
+        elif rng.random() < 0.06:
+            # an absolute file name (the script lives outside script_path)
+            fname = 'ABS:' + fname
         if fname in files or fname.startswith('.'):
             continue
         e = {'file_name': fname,
              'background': rng.choice(HOSTILE), 'color': rng.choice(HOSTILE)}
         if rng.random() < 0.5:
             p = rng.choice(HOSTILE).replace('/', '')
+            if rng.random() < 0.15:
+                # an explicit path is taken as it stands, `.ls` and all
+                p = rng.choice([p + '.ls', base + '.ls', p + '.LS', 'x.ls'])
             e['path'] = p
         if rng.random() < 0.5:
             e['title'] = rng.choice(HOSTILE)
@@ -203,6 +210,8 @@ def gen_manifest(rng):
             e['title'] = ''
         if rng.random() < 0.1:
             e['path'] = ''
+        if fname.startswith('ABS:') and not e.get('path'):
+            e['path'] = base          # (a default path would contain slashes)
         path = model_path(e)
         if path in paths or path in RESERVED or '/' in path or not path:
             continue
@@ -252,6 +261,7 @@ def template_vars(name):
 
 class Scenario:
     def __init__(self, ctx, manifest, workdir, replay, responsive=False):
+        manifest = copy.deepcopy(manifest)
         self.ctx, self.manifest, self.replay = ctx, manifest, replay
         # responsive: a job that is asked to stop gets its pending device
         # request answered at once and winds down while the handler is still
@@ -265,8 +275,21 @@ class Scenario:
         with open(os.path.join(workdir, 'web', 'manifest.json'), 'w') as f:
             json.dump(manifest, f)
         self.by_path = {}
+        for e in manifest:
+            if e['file_name'].startswith('ABS:'):
+                e['file_name'] = os.path.join(workdir, 'elsewhere',
+                                              e['file_name'][4:])
+                # a decoy where a careless join would look instead
+                decoy = os.path.join(workdir, 'scripts',
+                                     e['file_name'].lstrip('/'))
+                os.makedirs(os.path.dirname(decoy), exist_ok=True)
+                with open(decoy, 'w') as f:
+                    f.write('hue 98 set "A"\n')
+        with open(os.path.join(workdir, 'web', 'manifest.json'), 'w') as f:
+            json.dump(manifest, f)
         for k, e in enumerate(manifest):
             full = os.path.join(workdir, 'scripts', e['file_name'])
+            os.makedirs(os.path.dirname(full), exist_ok=True)
             with open(full, 'w') as f:
                 # device A's colour identifies the script that ran
                 f.write('hue {} set "A"\n'.format(k + 1))
@@ -425,8 +448,10 @@ class Scenario:
             _AUDIT_ON[0] = False
         new_jobs = self.jobs[before_jobs:]
         new_stops = self.stops[before_stops:]
-        opened = [p for p in OPENED if p.startswith(
-            os.path.join(self.root, 'scripts')) or p.endswith('.ls')]
+        opened = [p for p in OPENED if (
+            p.startswith(self.root + os.sep)
+            and not p.startswith(os.path.join(self.root, 'web')))
+            or p.endswith('.ls')]
         r = route(path)
         ctx.count('requests')
         ctx.count('route:' + (r[0] if r else '404'))
